@@ -53,6 +53,7 @@ structure Params where
   terminateClosesTx  : Bool      -- true = before d24e630: `terminate` closes the swapped-out tx channel
   errChBuffered      : Bool      -- 4f747d8: `make(chan error, 1)`
   closeRepaired      : Bool      -- 9ada762: client-level `closed` flag, nil-tolerant `Close`
+  dbg : Nat := 0
   recheckAfterDial   : Bool      -- NOT in the code: proposed patch (reconnect re-checks `c.closed` after dialing)
   deriving Repr, DecidableEq, Inhabited
 
@@ -346,7 +347,7 @@ def kActive (s : St) : Bool := !(s.kp == .idle || s.kp == .retOk || s.kp == .ret
 def envStart (s : St) : List St :=
   if s.kp = .idle then
     [{ s with kp := .k0, retry := 3, ntx := 0, kctx := false, born := s.cclosed,
-              clean := s.faultFree && !s.cclosed && s.cp == .c0 && settled s }]
+              clean := !s.cclosed && s.cp == .c0 && settled s }]
   else []
 
 /-- the caller's context is cancelled / times out. -/
@@ -390,12 +391,9 @@ def envDialFail (s : St) : List St :=
 
 /-- environment: callers, contexts, `Close()`, the server, the fault injector. -/
 def stepEnv (p : Params) (s : St) : List St :=
-  envStart s ++ envCancel s ++ envClose p s
-  ++ (if !s.faultFree then [{ s with faultFree := true }] else [])
-  ++ envAnswer s ++ envWritten s
-  ++ (if !s.faultFree then
-        envReadFault s 1 ++ envReadFault s 2 ++ envWriteFault s 1 ++ envWriteFault s 2 else [])
-  ++ (if !s.faultFree ∨ s.kctx then envDialFail s else [])
+  let dirty (l : List St) : List St := l.map fun t => { t with clean := false }
+  envStart s ++ (if p.dbg % 2 = 1 then [] else envCancel s) ++ (if p.dbg / 2 % 2 = 1 then [] else envClose p s) ++ envAnswer s ++ envWritten s
+  ++ (if p.dbg / 4 % 2 = 1 then [] else dirty (envReadFault s 1 ++ envReadFault s 2 ++ envWriteFault s 1 ++ envWriteFault s 2 ++ envDialFail s))
 
 def step (p : Params) (s : St) : List St := stepInt p s ++ stepEnv p s
 
@@ -411,7 +409,8 @@ def connEnded (s : St) : Bool := s.rp == .rEnd && s.wp == .wEnd
     `Close()` holding a pointer to it is inside its `terminate`. -/
 def handoffOk (s : St) : Bool :=
   s.closed && ((s.cause != 0 && s.txNil && s.netClosed)
-    || (s.cref && (s.cp == .ctA || s.cp == .ctB || s.cp == .ctC)))
+    || (s.cref && (s.cp == .ctA || (s.cp == .ctB && s.cause != 0)
+                   || (s.cp == .ctC && s.cause != 0 && s.txNil))))
 
 def badStale (s : St) : Bool := s.stale
 def badReuse (s : St) : Bool := s.reused
